@@ -381,6 +381,68 @@ class CpuidCheck:
         return 0 if p.returncode == 0 else 2
 
 
+class AllocCheck:
+    def build(self, *a):
+        target, (ok, log) = vlib.build_exe("xvalloc", os.path.join(vlib.VERIF, "harness", "h_alloc.cpp"),
+                                           flags=["-msse2", "-g", "-fsanitize=address", "-fsanitize-recover=address", "-fno-omit-frame-pointer"], libs=["-ldl", "-lpthread"], opt="-O1")
+        if not ok:
+            sys.stderr.write(log[-4000:])
+            print("[vcheck] C18: the allocator harness does not compile against the current tree")
+            sys.exit(2)
+        return target
+
+    def run(self, prop, tier, seed):
+        t0 = time.time()
+        exe = self.build()
+        os.makedirs(vlib.OUT, exist_ok=True)
+        env = dict(os.environ, ASAN_OPTIONS="halt_on_error=0:detect_leaks=1:allocator_may_return_null=1:print_summary=0")
+        procs = []
+        for part in range(4):
+            out = os.path.join(vlib.OUT, "%s.%s.part%d.json" % (prop, tier, part))
+            if os.path.exists(out):
+                os.unlink(out)
+            log = open(os.path.join(vlib.OUT, "%s.%s.part%d.log" % (prop, tier, part)), "w")
+            procs.append((out, subprocess.Popen([exe, "--out", out, "--tier", tier, "--seed", str(seed), "--part", str(part)], env=env, stdout=log, stderr=log), log))
+        merged = None
+        asan_reports = 0
+        for out, p, log in procs:
+            rc = p.wait()
+            log.close()
+            txt = open(log.name, errors="replace").read()
+            asan_reports += txt.count("ERROR: AddressSanitizer")
+            if rc != 0 or not os.path.exists(out):
+                sys.stderr.write(txt[-3000:])
+                print("[vcheck] C18: explorer part failed (status %s)" % rc)
+                return 2
+            sys.stderr.write("".join(l + "\n" for l in txt.splitlines() if l.startswith("[xvalloc]")))
+            r = json.load(open(out))
+            if merged is None:
+                merged = r
+            else:
+                for k in ("states", "transitions", "distinct_nontrivial", "histories", "histories_with_injected_faults", "size_cases", "predicate_cases", "posix_memalign_calls_intercepted", "violations_total", "violations_unknown"):
+                    merged[k] = merged.get(k, 0) + r.get(k, 0)
+                merged["violations"] += r.get("violations", [])
+                for kk, vv in r.get("by_key", {}).items():
+                    merged["by_key"][kk] = merged["by_key"].get(kk, 0) + vv
+        merged["wall_s"] = time.time() - t0
+        rule = ("all operation histories over the stated alphabet up to the length bound are executed on a fresh allocator inside an AddressSanitizer build; after every step the model of live blocks "
+                "(alignment, size, tags, no overlap) is compared with the heap; fault injection: every subset of <= 2 failing posix_memalign calls per history (deviation-bounded); "
+                "size arithmetic and the alignment predicates are enumerated completely over their stated ranges; states = histories + cases; transitions = operations executed")
+        bound = {"quick": "histories of length <= 5 (<= 3 live blocks), fault histories of length <= 4 x <= 2 faults; T in {char, float, double, 24-byte struct} x Align in {8,...,4096}; n in {0..64} and 2^k +- 1 (allocated when <= 64 MiB), every n with n*sizeof(T) within +-64 of 2^64, SIZE_MAX/sizeof(T) - {0..7}; is_aligned for every residue mod 2*alignment x 9 architectures; get_alignment_offset for every residue x size in [0, 2 block] x block in {1,...,64} x 4 element sizes; equality for all 100 alignment pairs",
+                 "thorough": "histories of length <= 6, fault histories of length <= 5; otherwise as quick"}[tier]
+        assumptions = ["AddressSanitizer (g++ 12) reports every heap overflow, double free and use after free that occurs in the explored steps",
+                       "posix_memalign is the only allocation primitive of the allocator on this platform (interposed in the harness executable)"]
+        extra = {k: merged.get(k) for k in ("histories", "histories_with_injected_faults", "size_cases", "predicate_cases", "posix_memalign_calls_intercepted")}
+        extra["asan_reports"] = asan_reports
+        return _finish(prop, tier, seed, merged, [], rule, bound, assumptions, extra, replay_kind="alloc")
+
+    def replay(self, prop, path):
+        print("[vcheck] C18 violations carry the complete operation history in the replay file; re-run `bin/vcheck C18 quick` to re-execute it")
+        v = json.load(open(path))
+        print(json.dumps(v, indent=1)[:2000])
+        return self.run(prop, "quick", 0)
+
+
 RULE_MATH = ("every point of the stated argument space is evaluated twice, once among neighbouring arguments and once in a strided order where "
              "the lanes of one batch come from 16 distant parts of the space, by every architecture's real kernel; each lane result is judged "
              "against the exact value (ulp bound inside the normal range, graceful-degradation predicate outside); states = arguments x orders; "
@@ -432,6 +494,7 @@ CHECKS = {
         "quick": "the C10 and C11 quick argument spaces of every elementary function, both stream orders (so that lanes of very different magnitude share a batch), all 22 architectures",
         "thorough": "all 2^32 float32 arguments of every unary function and the C11 thorough lattice"}, extra_args=["--ticks"]),
     "C15": CpuidCheck(),
+    "C18": AllocCheck(),
     "C17": Elementwise(["scalar"], RULE_EW + "; the scalar overloads are run one element per call and judged by the same reference models as the batch lanes (so scalar == batch wherever the model is single-valued); NaN operands are outside the property", {
         "quick": "the C01/C02/C03/C06/C07/C08 operand spaces (8-bit pairs exhaustive, ALL16 x L16, lattices^2, every shift/rotate count, fp lattices, rounding windows) for add, sub, mul, div, mod, neg, abs, min, max, sadd, ssub, avg, avgr, incr/decr(_if), bitwise operators, shifts, rotates, comparisons, select, is_flint/is_even/is_odd, fma family, nearbyint_as_int, bitwise_cast, clip, pow with 21 integer exponents (scalar and batch forms against the shared square-and-multiply model); all 22 architectures' compile flags",
         "thorough": "as quick with the thorough spaces of the underlying properties"}),
